@@ -447,7 +447,7 @@ func c11Random(g *lineGen, r *rng, tier string) {
 	thorough := tier == "thorough"
 	perFraming, maxBig, nBig := 40, 256*1024, 2
 	if thorough {
-		perFraming, maxBig, nBig = 400, 8 << 20, 6
+		perFraming, maxBig, nBig = 400, 8<<20, 6
 	}
 	framings := append(append(c11SplitFramings(), c11HdrFramings()...), "rawjson")
 	for _, fn := range framings {
